@@ -350,6 +350,22 @@ def is_digits_test(prog, sl, v, parsed):
     return cl[0] == 'fnitem' and cl[1].endswith('is_ascii_digit')
 
 
+def is_nondigit_test(prog, sl, v, parsed):
+    """v = parsed.bytes()/chars().any(|c| !c.is_ascii_digit())  — false exactly when all are digits (De Morgan)"""
+    if not (v[0] == 'call' and v[1] == IT + 'any' and len(v[2]) == 2):
+        return False
+    src, cl = strip(v[2][0]), strip(v[2][1])
+    if not (src[0] == 'call' and src[1] in ('core::str::<impl str>::bytes', 'core::str::<impl str>::chars') and same(src[2][0], parsed)):
+        return False
+    if cl[0] == 'closure' and cl[1] in prog.fns:
+        body = prog.fns[cl[1]]
+        bv = strip(sl.local(body, 0))
+        if bv[0] == 'un' and bv[1] == 'Not':
+            bv = strip(bv[2])
+            return bv[0] == 'call' and bv[1].endswith('is_ascii_digit') and strip(bv[2][0])[0] == 'param'
+    return False
+
+
 def is_starts_with(v, parsed, ch):
     return v[0] == 'call' and v[1] == 'core::str::<impl str>::starts_with' and len(v[2]) == 2 and same(v[2][0], parsed) \
         and strip(v[2][1]) == ('const', ch)
